@@ -71,6 +71,15 @@ HARNESSES["C09"] = [
 ]
 
 
+SC = "scale::verif_kani::"
+FITS = "ScaledQuantity::fit -> no-op (identity with the empty converter; amount preservation of fit is C09's claim; kani-compiler ICE below convert_impl)"
+LMARK = "scale::linear_scale -> marker recording its arguments (the product itself is decided by Engine M)"
+HARNESSES["C08"] = [
+    dict(name=SC + "c08_recipe_default_scale_plumbing", tier="quick", kernel="scale::ScalableRecipe::default_scale", stubs=[RS, FMT, LMARK],
+         bound="recipe shape fixed: 1 ingredient (Linear|Fixed number), 1 cookware (Fixed number), 1 timer without quantity; numbers symbolic finite; unwind 10", budget_s=300, obligation="written values verbatim, reported as default scaling, linear_scale never called"),
+]
+
+
 def select(prop, tier):
     out = []
     for e in HARNESSES.get(prop, []):
